@@ -256,4 +256,41 @@ CHECKS = {
         "assumptions": ["path-character unit IDs are limited to two levels of '..' so that the check cannot delete its own scratch root"],
         "selftest": False,
     },
+    "C15": {
+        "level": "exploration",
+        "level_text": "seeded cells of the table command {submit, cancel, release, force-release, results} x connection kind {unix, tcp} x work type "
+                      "{verifying, non-verifying, remote signed/unsigned, unknown} x 19 token kinds (absent, garbage, truncated, valid, expired "
+                      "against the simulated clock incl. a token that expires while waiting, other audience/key, alg none, HMAC keyed with the "
+                      "public key, tampered payload, ...), each against a freshly created target unit; the verdict of an independent table "
+                      "written from the property text is compared with the reply, and on refusal the unit directories, record identity and "
+                      "streamed bytes must be unchanged",
+        "level_note": "the table is finite; runs sample it (8-24 cells per run) and evidence lists the distinct cells covered; RS256 and "
+                      "no-expiry tokens signed by the configured key are not decided by the property text and only counted; mesh-stream "
+                      "sessions behave as tcp for this property (anything that is not the unix socket) and are not driven separately",
+        "quick": {"runs": 240, "per_proc": 20},
+        "thorough": {"runs": 6000, "per_proc": 50},
+        "rule": "one run = 8-24 cells; distinct_nontrivial counts distinct cell multisets; coverage.counters give how many cells required refusal, "
+                "acceptance, or concerned an unexpected token",
+        "real": ["pkg/workceptor processSignature/VerifySignature/createSignature, control commands", "golang-jwt against the simulated clock"],
+        "stub": ["command-runner process (stub)", "the remote node of remote units (unreachable)"],
+        "assumptions": [],
+        "selftest": False,
+    },
+    "C19": {
+        "level": "exploration",
+        "level_text": "seeded parameter maps (15 spellings: secret_ in every letter case, look-alikes that are not secret, non-ASCII) with unique marker "
+                      "values, remote submissions with no / a real / an unknown TLS client profile, then histories of status / list / cancel / "
+                      "force-release and crash-restarts (records are reloaded from disk, where secrets are kept); no marker of a secret "
+                      "parameter may occur in any byte sent to a control client, all other parameters must be reported unchanged, and a "
+                      "submission with secrets and no TLS profile must be refused leaving no file and causing no mesh traffic",
+        "level_note": "sampling; the remote node is unreachable, so what is sent to it once a TLS profile is named is not observed here",
+        "quick": {"runs": 600, "per_proc": 50},
+        "thorough": {"runs": 60000, "per_proc": 200},
+        "rule": "one run = one parameter map x TLS choice x connection kind x 3-16 operations; distinct_nontrivial counts distinct (keys, secret "
+                "present, tls, connection, operation kinds) classes",
+        "real": ["pkg/workceptor remote unit Status/UnredactedStatus, AllocateRemoteUnit, unitStatusForCFR, control commands"],
+        "stub": ["the remote node (unreachable)"],
+        "assumptions": [],
+        "selftest": False,
+    },
 }
